@@ -591,9 +591,6 @@ func VerifParse() {
 		if ok {
 			verifAssert(verifASTEqual(ast, ref), "C03:grouping-differs-from-precedence-rules")
 		}
-		if verifNative() {
-			verifNote("ast", VerifSexpr(ast))
-		}
 		return
 	}
 	// payload-dependent rejections (a number that is not an integer) are not grammar facts
